@@ -239,8 +239,11 @@ impl Prop for C19 {
                 let mut r = ChunkedReader::new(&b, &case.chunks);
                 let loaded = x.load_same(&mut r).map_err(|e| Fail::new(format!("load-stripped.{}", what), format!("a {} file whose embedded bitvectors carry no support structures was rejected: {}", what, e)))?;
                 ensure_eq!(r.pos, b.len(), "load-stripped.consumed", "{}: bytes consumed", what);
-                ensure!(loaded.eq_dyn(x.as_ref()), format!("load-stripped.{}.eq", what), "{} loaded from a file without embedded supports != the original", what);
-                ensure_eq!(loaded.probe(), x.probe(), format!("load-stripped.{}.answers", what), "{} loaded from a file without embedded supports answers the query plan differently", what);
+                // "load and work": the answers must be those of the original; `==` with the original is not part of the property
+                let same = loaded.eq_dyn(x.as_ref());
+                let probe = crate::engine::catch(|| loaded.probe()).map_err(|(loc, msg)| Fail::new(format!("load-stripped.{}.panic@{}", what, loc), format!("{} loaded from a file with fewer embedded supports: a query panicked at {}: {}", what, loc, msg)))?;
+                ensure_eq!(probe, x.probe(), format!("load-stripped.{}.answers", what), "{} loaded from a file with fewer embedded supports answers the query plan differently (== is {})", what, same);
+                rep.class_if(!same, "loaded-works-but-not-==-original");
                 rep.class(&format!("stripped:{}", what));
                 rep.class_if(in_option, "stripped-inside-option");
                 rep.class_if(mixed, "stripped:mixed-subsets-per-bitvector");
